@@ -30,6 +30,14 @@ CHECKS = {
          "deterministic simulation of several partition replicas fed one generated log; the snapshot/restore point is enumerated over every cut of each log (fresh, used and re-snapshotted restorers, different owned map orders); dump-equality oracle plus sequential map model",
          "For each seeded log, EVERY cut point is exercised: prefix, snapshot, restore into a fresh / used replica, suffix; all replicas must report the same outcome per entry and end with identical contents, equal to the sequential map model.",
          "Enumeration is complete per log over cut points (not over logs); raft and the log store are stubbed (World III covers the replicated path)."),
+ "C06": ("fault_enumeration", "DESIGN.md §3 C06, §2.5 World IV",
+         "deterministic simulation of the raft log store: seeded legal call sequences on the real Badger-backed WAL, differential oracle against etcd raft.MemoryStorage after every call through warm and cold-cache instances; reopen enumerated at every position, DB close/reopen and DeleteGroup as generated faults, several groups per database",
+         "For each seeded call sequence every read method is compared with etcd's MemoryStorage after EVERY call, through the warm instance and a fresh one (cold cache), for every group in the database (isolation); with enum set, for EVERY position a shadow group replays the sequence with a reopen at that position.",
+         "Reference order for one Save: ApplySnapshot, Append, SetHardState. Badger's own durability trusted; calls the reference rejects by panicking are not generated."),
+ "C16": ("exploration", "DESIGN.md §3 C16, §2.5 World V",
+         "deterministic simulation of DatasetManager + Allocator + cluster.Conn over a scripted raft.Group inside a synctest bubble; placement predicate per partition plus independence/spread statistics asserted only where the false-alarm probability is below 2^-60",
+         "Seeded search over N (1..16), R (1..8), P (1..64) and shuffle / map-order seeds: every partition gets exactly min(R,N) distinct member ids; partitions are not all placed identically and every member is used, asserted only where chance makes a false alarm impossible in practice (< 2^-60).",
+         "The local node is not a member (no partition raft started); randomness seeded by the harness (math/rand seed + runtime overlay)."),
 }
 
 NOT_APPLICABLE = {
